@@ -97,4 +97,24 @@ Trap2x4(M, var) ==
   IN GoI(0)
 \* square_trapezium = trapezium of the squares
 SqTrap2x4(M, var) == Trap2x4(Squared2(M), var)
+
+(* ================================================================ grids with a fine part *)
+(* A nearly uniform grid x_k = (A_k + B_k / 2^K) / 2^s does not fit one 32-bit numerator.  The mesh then      *)
+(* carries the coarse numerators A in xn (yn), the fine numerators B in xf (yf) and K in kx (ky); plain      *)
+(* grids have xf = zeros, kx = 0.  The trapezium sums are linear in the cell widths, so the exact result is  *)
+(*     T(A) + T(B) / 2^K            (1-D)                                                                    *)
+(*     T(A,C) + T(B,C) / 2^kx + T(A,D) / 2^ky + T(B,D) / 2^(kx+ky)      (2-D; y = (C + D / 2^ky) / 2^sy)      *)
+(* with T the integer sums above evaluated on the respective numerators.  It is returned as <<H, L>>,        *)
+(* meaning H + L / 2^F with F = kx (+ ky) and 0 <= L < 2^F.  (Requires kx + ky <= 28 when both are > 0, and  *)
+(* each <= 30, so that everything stays inside TLC's integers; MC_Mesh checks the split against the          *)
+(* unsplit sum on small K.)                                                                                  *)
+Split(T00, T10, kx, T01, ky, T11) ==
+  LET F == kx + ky
+      Lsum == (T10 % (2 ^ kx)) * (2 ^ ky) + (T01 % (2 ^ ky)) * (2 ^ kx) + (T11 % (2 ^ F))
+  IN <<T00 + (T10 \div (2 ^ kx)) + (T01 \div (2 ^ ky)) + (T11 \div (2 ^ F)) + (Lsum \div (2 ^ F)), Lsum % (2 ^ F)>>
+Trap1x2F(M, var) == Split(Trap1x2(M, var), Trap1x2([M EXCEPT !.xn = M.xf], var), M.kx, 0, 0, 0)
+Trap2x4F(M, var) == Split(Trap2x4(M, var), Trap2x4([M EXCEPT !.xn = M.xf], var), M.kx,
+                          Trap2x4([M EXCEPT !.yn = M.yf], var), M.ky,
+                          Trap2x4([M EXCEPT !.xn = M.xf, !.yn = M.yf], var))
+SqTrap2x4F(M, var) == Trap2x4F(Squared2(M), var)
 =============================================================================
